@@ -155,7 +155,10 @@ def cases(tier, seed):
             seen_c.add(canon(v))
             cands.append((v, ok, "universe+zz" if "zz" in flags else "universe"))
         for d, valid, src in cands:
-            for pos in (("member",) if tier == "quick" else (("member", "definition", "named_type") if src == "hand" else ("member", "definition"))):
+            poss = ("member",) if tier == "quick" else (("member", "definition", "named_type") if src == "hand" else ("member", "definition"))
+            if src == "hand":
+                poss += ("variant_member",)   # the member of a STRUCT VARIANT that follows a unit and a newtype variant
+            for pos in poss:
                 for builder in ((True,) if (tier == "quick" or src != "hand") else (False, True)):
                     sd = with_default(schema, d)
                     defs = dict(DEFS)
@@ -163,6 +166,12 @@ def cases(tier, seed):
                     c = {"kind": k, "default": d, "valid": valid, "pos": pos, "builder": builder, "settings": settings, "member_schema": schema, "src": src}
                     if pos == "member":
                         defs["Holder"] = {"type": "object", "properties": {"p": sd, "q": INT}}
+                        c["doc"] = {"definitions": defs}
+                        c["ops"] = None
+                    elif pos == "variant_member":
+                        defs["Holder"] = {"oneOf": [{"type": "string", "enum": ["U"]},
+                                                    {"type": "object", "properties": {"N": INT}, "required": ["N"], "additionalProperties": False},
+                                                    {"type": "object", "properties": {"V": {"type": "object", "properties": {"p": sd, "q": INT}}}, "required": ["V"], "additionalProperties": False}]}
                         c["doc"] = {"definitions": defs}
                         c["ops"] = None
                     elif pos == "definition":
@@ -213,6 +222,9 @@ def decorate(wc, a):
                         'Ok(h) => json!({"ok": true, "w": serde_json::to_value(&h).unwrap()}), Err(e) => json!({"ok": false, "err": e.to_string()}) } })),')
         if "Holder" in has_default:
             arms.append('"struct_default" => Some(vs::guard(|| json!({"ok": true, "w": serde_json::to_value(&Holder::default()).unwrap()}))),')
+    elif p["pos"] == "variant_member":
+        arms.append('"serde" => Some(vs::guard(|| match serde_json::from_str::<Holder>("{\\"V\\":{}}") { Ok(h) => json!({"ok": true, "w": serde_json::to_value(&h).unwrap()["V"].clone()}), '
+                    'Err(e) => json!({"ok": false, "err": e.to_string()}) })),')
     else:
         if "T" in has_default:
             arms.append('"type_default" => Some(vs::guard(|| json!({"ok": true, "w": serde_json::to_value(&T::default()).unwrap()}))),')
@@ -249,7 +261,7 @@ def execute(cases_, tier, seed):
         if not c["valid"]:
             if outcome != "err":
                 # only where the default is honoured: definition-level defaults on types without a Default impl are dropped, not honoured
-                if outcome == "ok" and c["pos"] != "member" and not probes:
+                if outcome == "ok" and c["pos"] not in ("member", "variant_member") and not probes:
                     continue
                 detail = (wc.render or {}).get("msg") if outcome == "render-panic" else (wc.errors[:2] if outcome == "uncompilable" else (bad_op or {}).get("msg"))
                 res.violations.append(Violation(c["key"], "invalid-default:" + outcome, "%s: default %s is not valid for its schema but add gives %s" % (c["id"], json.dumps(c["default"]), outcome),
@@ -295,7 +307,7 @@ def execute(cases_, tier, seed):
     res.extra.update({"outcome_histogram": {"valid=%s,%s" % k: v for k, v in hist.items()}, "realised_defaults_checked": n_real})
     res.samples = [{"id": c["id"], "member_schema": c["member_schema"], "default": c["default"]} for c in cases_[:: max(1, len(cases_) // 5)]][:5]
     res.bound = "tier=%s: %d kinds x candidate defaults x positions %s x builder %s" % (tier, len(QUICK_KINDS if tier == "quick" else KINDS),
-                                                                                      "{member}" if tier == "quick" else "{member, definition, add_type_with_name}",
+                                                                                      "{member, variant member}" if tier == "quick" else "{member, variant member, definition, add_type_with_name}",
                                                                                       "{on}" if tier == "quick" else "{off,on}")
     res.assumptions = ["invalid defaults of native types (uuid, date) are not demanded to fail (validation documented as deferred)",
                        "an absent member after serialisation stands for null / [] / {} (skip_serializing_if)"]
